@@ -296,7 +296,11 @@ func (a Bytes) M__contains__(item Object) (Object, error) {
 }
 
 func (a Bytes) M__mul__(other Object) (Object, error) {
-	if b, ok := convertToInt(other); ok {
+	b, ok, err := repeatCount(other)
+	if err != nil {
+		return nil, err
+	}
+	if ok {
 		if _, err := repeatLength(len(a), b); err != nil {
 			return nil, err
 		}
